@@ -160,10 +160,18 @@ func (s *v4Server) ResetLeases(leases []*dhcpsvc.Lease) (err error) {
 	s.leases = nil
 
 	for _, l := range leases {
-		if !l.IsStatic {
+		if !l.IsStatic && !s.isBlocklisted(l) {
 			l.Hostname = s.validHostnameForClient(l.Hostname, l.IP)
 		}
+
 		err = s.addLease(l)
+		if errors.Is(err, ErrDupHostname) && !l.IsStatic {
+			// Don't lose the lease of a client because of its hostname, since
+			// the client still uses the address.
+			l.Hostname = ""
+			err = s.addLease(l)
+		}
+
 		if err != nil {
 			// TODO(a.garipov): Wrap and bubble up the error.
 			log.Error("dhcpv4: reset: re-adding a lease for %s (%s): %s", l.IP, l.HWAddr, err)
